@@ -239,7 +239,7 @@ def step_sig_static(entry):
         except Exception:
             npos = -1
     return (entry.rule.name, npos, str(t.get('sentence')), t.get('world'), t.get('designated'),
-            str(t.get('constant')), t.get('world1'), t.get('world2'), bool(t.get('flag')), len(br))
+            str(t.get('constant')), t.get('world1'), t.get('world2'), bool(t.get('flag')))
 
 def explore(logic, argument, *, optname='default', mode='build', order=0, bound=1,
             max_execs=200, monitors_factory=None, extra_opts=None, keep_tab=False, on_exec=None):
